@@ -39,7 +39,7 @@ Compat(t) ==
     [] t = "OptBool"     -> {"absent", "none", "boolT", "boolF"}
     [] t = "ListStr"     -> {"absent", "none", "code"}
     [] t = "LitStr"      -> {"absent", "str"}
-    [] t = "LitInt"      -> {"absent", "intPos"}
+    [] t = "LitInt"      -> {"absent", "intPos", "int0"}      \* a falsy member as default (tables T1 / TN have 0 among the members)
     [] t = "UnionIntStr" -> {"absent", "intPos", "str", "strNum"}
     [] t = "TupleIntStr" -> {"absent", "code"}
     [] t = "Dotted"      -> {"absent", "none", "code"}
